@@ -108,7 +108,7 @@ CLAIMS = {
         "technique": V + " (init: greeting bytes and conformance lemma, one flush before the first read, after_authentication exactly once, reject/accept replies; run_on calls run only after init Ok) + " + K + " (client_handshake layouts; ER_ACCESS_DENIED_ERROR = 1045/28000)",
         "design_ref": "DESIGN.md section 6 C11",
         "text": "init is proved to put exactly one 69-byte HandshakeV10 packet with sequence id 0 on the wire (protocol 10, NUL-terminated version, PROTOCOL_41 always, SSL bit iff the shim offers a TLS config), flushed before reading; to call after_authentication exactly once with the user name client_handshake returned; on rejection to send ERR 1045/28000 with the next sequence id, flush, and return the shim's error; on success OK. run requires the state only init's success establishes.",
-        "note": "client_handshake's user-name scan is bounded (scanned region <= 12 bytes) with nom's FindSubstring replaced by its specification (memchr's inline asm is not executable by CBMC). The greeting specification is the byte sequence plus a conformance lemma (decoder facts).",
+        "note": "client_handshake's user-name scan is proved for payloads of any length (k2_handshake_user_any: nom's FindSubstring -- memchr's inline asm is not executable by CBMC -- is replaced by its specification instantiated at one arbitrary index, and the harness asserts its claims at that same index: forall-introduction, no loop); the older 12-byte harness with the looping specification is kept as a bounded cross-check. The greeting specification is the byte sequence plus a conformance lemma (decoder facts).",
     },
     "C12": {
         "engine": "verus+kani",
@@ -171,7 +171,7 @@ CLAIMS = {
         "technique": K + " (panic-freedom of fullpacket/onepacket/parse/client_handshake/parse_from on all inputs) + " + V + " (next terminates and never panics; run/init never panic; Params::next without precondition)",
         "design_ref": "DESIGN.md section 6 C20",
         "text": "All functions that touch client bytes are proved free of panics and non-terminating loops for every byte string: CBMC's built-in checks on the nom parsers and the value decoder with symbolic contents and lengths, Verus's implicit obligations plus decreases clauses on next and run.",
-        "note": "KNOWN FINDINGS (not repaired): five panic sites in Params::next reachable with a malformed EXECUTE payload when the shim iterates the parameters (D9). packet() panic-freedom and its out-of-order flag are proved in Verus unit U7 over the transcribed nom combinators (trusted to match nom; bounded native cross-check N1 with overflow checks). (formerly: native enumeration). client_handshake scan bounded.",
+        "note": "KNOWN FINDINGS (not repaired): five panic sites in Params::next reachable with a malformed EXECUTE payload when the shim iterates the parameters (D9). packet() panic-freedom and its out-of-order flag are proved in Verus unit U7 over the transcribed nom combinators (trusted to match nom; bounded native cross-check N1 with overflow checks). (formerly: native enumeration). client_handshake's user-name scan complete (k2_handshake_user_any).",
     },
 }
 
